@@ -137,6 +137,9 @@ func (st *Stats) Record(x *Execution) {
 	}
 	for _, r := range x.Races {
 		k := r.Field
+		if i := strings.Index(k, "@"); i >= 0 {
+			k = k[:i]
+		}
 		if _, ok := st.Races[k]; !ok {
 			st.Races[k] = r
 			add("race", fmt.Sprintf("unsynchronised conflicting accesses to %s: %s / %s", r.Field, r.First, r.Second))
